@@ -10,6 +10,7 @@ import itertools
 
 # name -> (width, signed, (default init value, alternative init value) as the integer the port resets to)
 SHAPES = {
+    "u0": (0, False, (0, 0)),      # unsigned(0): zero-width port (only in the zero-width family: sig + metadata parts)
     "u1": (1, False, (0, 1)),      # 1                       init=1
     "s2": (2, True, (0, -1)),      # signed(2)               init=-1
     "r3": (2, False, (0, 2)),      # range(3)                init=2
@@ -352,4 +353,59 @@ def validate_json(inst, schema, root=None, where="$"):
     if isinstance(inst, list) and "items" in schema:
         for i, v in enumerate(inst):
             errs += validate_json(v, schema["items"], root, f"{where}[{i}]")
+    return errs
+
+
+# ------------------------------------------------------------------------------------------------ zero-width leaves
+def zero_width_family():
+    """signatures of 1..2 members (<= 1 signature member; nested ones with 1..2 ports) and doubly nested one-port chains in
+    which each port member in turn is a zero-width port unsigned(0) (with/without array dims, at top level, nested,
+    In-flipped), the other ports taking the usual signed/unsigned shapes by rotation"""
+    d2 = [(), (2,)]
+    fams = [
+        [dict(pd=d2, sd=d2, maxm=2, max_sub=1, pair_pd=[()]), dict(pd=d2, sd=[], maxm=2, pair_pd=[()])],
+        [dict(pd=d2, sd=d2, maxm=1, only_sub=True), dict(pd=d2, sd=[()], maxm=1, only_sub=True), dict(pd=d2, sd=[], maxm=1)],
+    ]
+    out = []
+    for levels in fams:
+        for i, t in enumerate(_trees(levels, 0)):
+            t = _assign_attrs(t, i)
+            for np_ in node_paths(t):
+                if get_node(t, np_)["k"] == "p":
+                    out.append(edit(t, np_, lambda n: dict(n, s="u0", i=0)))
+    return out
+
+
+# facts of the published component metadata schema (https://amaranth-lang.org/schema/amaranth/0.5/component.json),
+# written down from the published document: (json pointer into the schema, expected value)
+SCHEMA_FACTS = [
+    (("required",), ["interface"]),
+    (("properties", "interface", "required"), ["members", "annotations"]),
+    (("$defs", "member-port", "required"), ["type", "name", "dir", "width", "signed", "init"]),
+    (("$defs", "member-port", "additionalProperties"), False),
+    (("$defs", "member-port", "properties", "type"), {"const": "port"}),
+    (("$defs", "member-port", "properties", "dir"), {"enum": ["in", "out"]}),
+    (("$defs", "member-port", "properties", "width"), {"type": "integer", "minimum": 0}),
+    (("$defs", "member-port", "properties", "signed"), {"type": "boolean"}),
+    (("$defs", "member-port", "properties", "init"), {"type": "string", "pattern": "^[+-]?[0-9]+$"}),
+    (("$defs", "member-port", "properties", "name"), {"type": "string", "pattern": "^[A-Za-z][A-Za-z0-9_]*$"}),
+    (("$defs", "member-interface", "required"), ["type", "members", "annotations"]),
+    (("$defs", "member-interface", "properties", "type"), {"const": "interface"}),
+    (("$defs", "member-array", "type"), "array"),
+]
+
+
+def schema_fact_errors(schema):
+    errs = []
+    for ptr, want in SCHEMA_FACTS:
+        cur = schema
+        try:
+            for k in ptr:
+                cur = cur[k]
+        except (KeyError, TypeError):
+            errs.append(("/".join(ptr), "missing", want))
+            continue
+        got = sorted(cur) if isinstance(want, list) and isinstance(cur, list) else cur
+        if got != (sorted(want) if isinstance(want, list) else want):
+            errs.append(("/".join(ptr), cur, want))
     return errs
